@@ -163,6 +163,8 @@ def main(argv=None):
             res['inconclusive'] += r.get('inconclusive', 0)
             merge_stats(res['stats'], r.get('stats'))
             res['units_done'] += 1
+            if os.environ.get('VERIF_DEBUG'):
+                print('unit done %.1fs evals=%d %s' % (r.get('unit_s', 0), r.get('evals', 0), str(r.get('samples', [''])[:1])[:120]), flush=True)
             if pool is None and time.monotonic() > deadline:
                 timed_out = res['units_done'] < len(units)
                 if timed_out:
